@@ -86,12 +86,12 @@ pub fn contract<const NI: usize, const NF: usize, const MAX: usize, const Z: usi
         }
     }
     if chunk_len != 0 {
-        let mut p: Limb = 1;
-        let mut k = 0;
-        while k < chunk_len {
-            p *= 10;
-            k += 1;
-        }
+        const POW10: [Limb; 20] = [
+            1, 10, 100, 1000, 10000, 100000, 1000000, 10000000, 100000000, 1000000000, 10000000000, 100000000000,
+            1000000000000, 10000000000000, 100000000000000, 1000000000000000, 10000000000000000, 100000000000000000,
+            1000000000000000000, 10000000000000000000,
+        ];
+        let p: Limb = POW10[chunk_len as usize];
         e_kind[n] = 1;
         e_val[n] = p;
         e_kind[n + 1] = 2;
